@@ -77,12 +77,30 @@ const (
 // mutateToken applies the case's mutation to tok (std-base64 text). other is
 // the other token of the pair (for swap/concat); foreign is the same kind of
 // token minted under another key.
+// tokenCoding finds the base64 flavour the server spells its tokens in: the
+// one that decodes tok and re-encodes it to the same text.
+func tokenCoding(tok string) *base64.Encoding {
+	for _, e := range []*base64.Encoding{base64.StdEncoding, base64.RawStdEncoding, base64.URLEncoding, base64.RawURLEncoding} {
+		if raw, err := e.DecodeString(tok); err == nil && e.EncodeToString(raw) == tok {
+			return e
+		}
+	}
+	return base64.StdEncoding
+}
+
+func lenientB64(text string) ([]byte, error) {
+	text = strings.NewReplacer(" ", "", "\r", "", "\n", "", "\t", "", "-", "+", "_", "/").Replace(text)
+	text = strings.TrimRight(text, "=")
+	return base64.RawStdEncoding.DecodeString(text)
+}
+
 func (c c12Case) mutateToken(tok, other, foreign string) string {
-	raw, err := base64.StdEncoding.DecodeString(tok)
+	coding := tokenCoding(tok)
+	raw, err := coding.DecodeString(tok)
 	if err != nil || len(raw) < rawMinLen {
 		return tok
 	}
-	enc := func(b []byte) string { return base64.StdEncoding.EncodeToString(b) }
+	enc := func(b []byte) string { return coding.EncodeToString(b) }
 	out := append([]byte{}, raw...)
 	switch c.Mutation {
 	case "flip-version":
@@ -118,6 +136,10 @@ func (c c12Case) mutateToken(tok, other, foreign string) string {
 		out[0] = byte(c.Byte)
 		return enc(out)
 	case "b64-url-alphabet":
+		// the other alphabet than the server's own
+		if coding == base64.URLEncoding || coding == base64.RawURLEncoding {
+			return base64.StdEncoding.EncodeToString(raw)
+		}
 		return base64.URLEncoding.EncodeToString(raw)
 	case "b64-strip-padding":
 		return strings.TrimRight(tok, "=")
@@ -211,10 +233,14 @@ func runC12(c c12Case) (out lib.Outcome) {
 		pCall = mutated
 	}
 	// is it the same token? (rule: "altered" means the decoded bytes differ)
-	origRaw, _ := base64.StdEncoding.DecodeString(orig)
-	mutRaw, mutErr := base64.StdEncoding.DecodeString(mutated)
-	same := mutErr == nil && bytes.Equal(origRaw, mutRaw)
-	structIntact := mutErr == nil && len(mutRaw) >= rawMinLen && mutRaw[0] == origRaw[0]
+	// "Altered" is judged on the bytes the text stands for under the most
+	// lenient reading of base64 (either alphabet, padding optional, white
+	// space and non-canonical trailing bits ignored): a server is free to
+	// accept any respelling of the token it sealed, and must refuse everything else.
+	origRaw, _ := lenientB64(orig)
+	mutRaw, mutErr := lenientB64(mutated)
+	same := mutated == orig || (mutErr == nil && bytes.Equal(origRaw, mutRaw))
+	structIntact := mutErr == nil && len(mutRaw) >= rawMinLen && len(origRaw) > 0 && mutRaw[0] == origRaw[0]
 	out.NonTrivial = !same && structIntact
 	if same {
 		out.Label("same-bytes")
